@@ -121,15 +121,6 @@ def ofRows (rs : List (List (Obj K))) : Option (OpMat K) :=
 
 end OpMat
 
-/-- `OperatorSum.__init__` flattening of one operand -/
-def Obj.flat1 : Obj K → List (Obj K)
-  | .sum l => l
-  | o => [o]
-/-- `LinearOperatorSum(*elements)`: nested sums flattened, *no* `ZeroOp` shortcut; `TypeError` without operand -/
-def Obj.sumN : List (Obj K) → Option (Obj K)
-  | [] => none
-  | l => some (.sum (l.flatMap Obj.flat1))
-
 namespace OpMat
 variable [DecidableEq K] [OfNat K 0] [OfNat K 1] [Mul K] [Add K] [Conj K]
 
@@ -156,12 +147,14 @@ def adj (Lf La : Nat → (Nat → K) → (Nat → K)) (A : OpMat K) (ys : List (
 def matmulOp (A : OpMat K) (o : Obj K) : Option (OpMat K) :=
   ofRows (A.rows.map (fun row => row.map (fun op => Obj.matmul op o)))
 
-/-- `__matmul__` with a matrix: entry `(i, j)` is `LinearOperatorSum(*[s @ o for s, o in zip(row_i, col_j)])` -/
+/-- `__matmul__` with a matrix: entry `(i, j)` is `reduce(operator.add, [s @ o for s, o in zip(row_i, col_j)])`,
+the left fold of `LinearOperator.__add__` (`Obj.plus`: `ZeroOp` neutral, sums flattened) without start
+element.  An empty inner dimension never reaches `reduce`: then `other` is the `0×0` matrix and has no column. -/
 def matmul (A B : OpMat K) : Option (OpMat K) :=
   if A.ncols ≠ B.nrows then none else
   (zipStar B.rows).bind fun cols =>
   (mapOpt (fun row =>
-      mapOpt (fun col => (zipWithS Obj.matmul row col).bind Obj.sumN) cols) A.rows).bind ofRows
+      mapOpt (fun col => (zipWithS Obj.matmul row col).bind (reduce1 Obj.plus)) cols) A.rows).bind ofRows
 
 /-- `__add__` with a matrix: entrywise `s + o` (non-strict zips after the shape check) -/
 def add (A B : OpMat K) : Option (OpMat K) :=
